@@ -3,6 +3,7 @@ package main
 // C19 — tokenisation ignores layout and comments and reports true positions.
 
 import (
+	"go/types"
 	gotoken "go/token"
 	"fmt"
 	"regexp"
@@ -18,7 +19,7 @@ func init() {
 	property("C19",
 		"Static conformance of the lexer's position bookkeeping and tables: (a) width-fact typestate over every token construction site — a start/end column may be derived as 'counter - k' only where the last k characters are known to be one byte wide (ASCII case arms, peeked ASCII second characters); after a reader loop the current character is a lookahead of unknown width (possibly none at end of input), so the prev* counters must be used; byte counters go to byte fields and character counters to character fields; start fields are read before the token's first character is consumed; (b) readChar restarts the four column counters and increments the line exactly when the previous character was a newline; end of input is readPosition >= len(input) in readChar and peekChar alike, and readChar is the only function that stores the position, line and column counters; (c) on every non-queued path whitespace {space, tab, LF, CR} and '#' / '//' comments are skipped before the dispatch; (d) the keyword table equals the README keyword list; plus the token-origin clauses of C16.c and the lexer start state / -lm wiring of C17.f. NOT decided: layout invariance of the token sequence itself (runtime string scanning; false by design where an identifier touches a quote or a comment separates adjacent strings). Every counter store of readChar is a row of the position model under exactly its effective condition (C19.b); token literals are built from source text (C19.f); positions are data outside the lexer (C16.d).",
 		[]string{"unicode.IsLetter / IsDigit / utf8.DecodeRuneInString behave as documented", "go/ssa lowering is faithful to the source"},
-		"C19.a", "C19.b", "C19.c", "C19.d", "C19.e", "C16.a", "C16.c", "C17.f", "C19.f", "C16.d", "C19.g")
+		"C19.a", "C19.b", "C19.c", "C19.d", "C19.e", "C16.a", "C16.c", "C17.f", "C19.f", "C16.d", "C19.g", "C18.m")
 
 	register(&Rule{ID: "C19.a", Doc: "width-fact typestate over token construction sites", Floor: 66, Run: c19a})
 	register(&Rule{ID: "C19.b", Doc: "readChar line/column reset; end-of-input test shared by readChar and peekChar", Floor: 15, Run: c19b})
@@ -446,7 +447,18 @@ func c19a(c *Ctx) {
 			if !ok || !typeIs(t, "token", "Token") {
 				return
 			}
-			if _, isPar := base.(*ssa.Parameter); !isPar {
+			// (a parameter, or the token of the enclosing function captured by a function literal)
+			isPtr := false
+			switch b := base.(type) {
+			case *ssa.Parameter:
+				isPtr = true
+			case *ssa.FreeVar:
+				isPtr = true
+			case *ssa.UnOp:
+				_, isFV := b.X.(*ssa.FreeVar)
+				isPtr = isFV
+			}
+			if !isPtr {
 				return
 			}
 			if !strings.HasSuffix(f, "CharIndex") && !strings.HasSuffix(f, "LineNumber") {
@@ -469,6 +481,12 @@ func c19a(c *Ctx) {
 					okFam = cu.fam == "prevchar" || cu.fam == "char"
 				case f == "EndUtf8CharIndex":
 					okFam = cu.fam == "prevutf8" || cu.fam == "utf8"
+				}
+				// where the typestate cannot follow, no width may be assumed: `counter - k` is the
+				// column of an earlier character only if the characters in between are one byte
+				// wide, which is known at the sites of NextToken and not in a helper
+				if cu.sub != 0 {
+					okFam = false
 				}
 			}
 			c.Check(okFam, key, c.W.Pos(st.Pos()), "a position stored through a token pointer is a lexer counter of the field's kind", hf.Name()+" sets "+f+" of the token it is handed to "+pretty(vt)+", which is not a position counter of that kind (a column computed from the literal's length counts bytes, and is wrong for characters of more than one byte)")
@@ -733,7 +751,20 @@ func c19b(c *Ctx) {
 	// compared with anything (a token boundary that depends on the layout — "the next literal is
 	// on the same line" — makes the token sequence depend on line breaks)
 	{
-		counters := map[string]bool{"lineNumber": true, "charNumber": true, "utf8CharNumber": true, "prevCharNumber": true, "prevUtf8CharNumber": true}
+		// (stated the other way round: the fields a decision may read are the ones the input is
+		// read through; the five counters and any field added later — "a line break was skipped"
+		// — are not among them)
+		inputFields := map[string]bool{"ch": true, "input": true, "position": true, "readPosition": true, "queuedTokens": true}
+		counters := map[string]bool{}
+		if lt := c.W.NamedType("lexer", "Lexer"); lt != nil {
+			if st, ok := lt.Underlying().(*types.Struct); ok {
+				for i := 0; i < st.NumFields(); i++ {
+					if !inputFields[st.Field(i).Name()] {
+						counters[st.Field(i).Name()] = true
+					}
+				}
+			}
+		}
 		nCmp := 0
 		for _, f := range c.W.FuncsOf("lexer") {
 			if isTestFunc(c.W, f) {
@@ -787,6 +818,21 @@ func c19b(c *Ctx) {
 				if taint[bo.X] || taint[bo.Y] {
 					nCmp++
 					c.Bad(fmt.Sprintf("%s/counter-compared#%d", f.Name(), nCmp), c.W.Pos(bo.Pos()), f.Name()+" compares a line / column counter ("+pretty(c.term(f, bo))+"): what the lexer does would depend on where in a line the text stands")
+				}
+			})
+			// a flag kept in the lexer that decides directly
+			instrs(f, func(in ssa.Instruction) {
+				ifi, ok := in.(*ssa.If)
+				if !ok {
+					return
+				}
+				cond := ifi.Cond
+				if u, isNot := cond.(*ssa.UnOp); isNot && u.Op == gotoken.NOT {
+					cond = u.X
+				}
+				if taint[cond] {
+					nCmp++
+					c.Bad(fmt.Sprintf("%s/counter-compared#%d", f.Name(), nCmp), c.W.Pos(ifi.Pos()), f.Name()+" branches on a field of the lexer that is not part of reading the input ("+pretty(c.term(f, cond))+"): what the lexer does would depend on the layout the field remembers")
 				}
 			})
 		}
